@@ -124,7 +124,14 @@ def run(ctx: C.Ctx):
         if libs is not None:
             libs = [n if in_guard_lib(n) else n.strip().lstrip("#;").strip() for n in libs]
         src = rng.choice(srcpool) if rng.random() < 0.7 else gen_text(rng, PRINTABLE + "\n\t{}", 60)
-        wcases.append(["write", src, port, pl, b, libs, rng.random() < 0.2])
+        r = rng.random()
+        pre = r < 0.2
+        if 0.2 <= r < 0.5:
+            # an earlier write_project into the same directory with a related source / configuration
+            variants = [src, src.replace("\r\n", "\n").replace("\n", "\r\n"), src.replace("\r\n", "\n"), src.replace("\n", "\r"),
+                        src + "\n", src.rstrip(), src.upper(), src + " ", "\ufeff" + src, src[:-1]]
+            pre = ["prior", rng.choice(variants), rng.choice([port, "COM9", port + "0"]).strip(), rng.choice([libs, ["Servo"], None, []])]
+        wcases.append(["write", src, port, pl, b, libs, pre])
     # invalid pairs must write nothing
     bad_pairs = [("atmelavr", "nano_every"), ("atmelmegaavr", "uno"), ("x", "uno"), ("atmelavr", "zz")]
     wbad = [["write", "int x;", "COM1", p, b, ["Servo"], False] for p, b in bad_pairs]
